@@ -47,7 +47,9 @@ func C15(t Tier) int {
 		{"aol-ok", func(a *world.Account, pos int) sdk.Msg {
 			return aoltypes.NewMsgCreateTopic(fmt.Sprintf("p%d-%s", pos, a.Name), "", a.Bech)
 		}},
-		{"aol-fail", func(a *world.Account, pos int) sdk.Msg { return aoltypes.NewMsgAddWriter("nosuchtopic", "", "", e.B.Bech, a.Bech) }},
+		{"aol-fail", func(a *world.Account, pos int) sdk.Msg {
+			return aoltypes.NewMsgAddWriter("nosuchtopic", "", "", e.B.Bech, a.Bech)
+		}},
 		{"did-ok", func(a *world.Account, pos int) sdk.Msg {
 			// a DID per position (keys k1..k3), relayed by the actor
 			did := didtypes.NewDID([]byte(fmt.Sprintf("c15-did-%d-%s", pos, a.Name)))
